@@ -191,7 +191,9 @@ def run_coq_shards(meta):
         return path, rc, out
     with ThreadPoolExecutor(max_workers=JOBS) as ex:
         results = list(ex.map(one, meta["shards"]))
-    nev = len(meta["evals"])
+    evnames = [e for e in meta["evals"] if e != "show_models"]
+    meta["evals"] = evnames
+    nev = len(evnames)
     ids = [[] for _ in range(nev)]
     errors = []
     for path, rc, out in results:
@@ -199,6 +201,9 @@ def run_coq_shards(meta):
             errors.append("%s: coqc rc=%d: %s" % (os.path.basename(path), rc, out[-1500:]))
             continue
         ev = parse_evals(out)
+        tail = re.split(r':\s*list\s+N\b', out)[-1].strip()
+        if tail and os.environ.get("VERIF_SHOW"):
+            log("MODEL: " + re.sub(r'\s+', ' ', tail)[:3000])
         if len(ev) != nev:
             errors.append("%s: expected %d Eval results, got %d: %s" % (os.path.basename(path), nev, len(ev), out[-500:]))
             continue
@@ -261,6 +266,7 @@ def check_property(pid, tier, seed, replay=None):
     obligations = []      # (name, discharged?)
     only = None
     if replay:
+        os.environ["VERIF_SHOW"] = "1"
         r = json.load(open(replay))
         seed, tier, only = r.get("seed", seed), r.get("tier", tier), r.get("case_id")
         replay_engine = r.get("engine")
@@ -283,6 +289,14 @@ def check_property(pid, tier, seed, replay=None):
                 broken.append(("audit", a))
         for n in names:
             obligations.append((n, ok and n in assumptions and not any(n in a for a in aud)))
+        # thorough tier: re-check the compiled closure with the independent checker
+        if tier == "thorough" and ok and not replay:
+            mods = ["EB." + f.replace("/", ".") for f in prop_file]
+            rc, out = sh(["coqchk", "-silent", "-o", "-Q", os.path.join(COQ, "theories"), "EB"] + mods, timeout=3000)
+            axioms_none = re.search(r'Axioms:\s*<none>', out) is not None
+            if rc != 0 or not axioms_none:
+                broken.append(("coqchk", "coqchk failed or reports axioms: %s" % out[-600:]))
+            obligations.append(("coqchk", rc == 0 and axioms_none))
         # 2. correspondence modules (depend on models only, so they survive a broken proof)
         corr_targets = [vo(c) for c in cfg.get("corr", [])]
         cok, clog, cfail = coq_make(corr_targets) if corr_targets else (True, "", [])
